@@ -219,6 +219,41 @@ Theorem C07_payload_damage_reads :
 Proof. exact payload_damage_reads. Qed.
 Print Assumptions C07_payload_damage_reads.
 
+(* ---------------------------------------------------------------- damage to the batch-length token *)
+(* the bytes the checksum covers start with the length token (Encoder.Write resets the CRC before
+   Encode(f.Len()), Read resets it before Decode(&n): pinned by C07_gen_crc_events) *)
+Theorem C07_checksum_covers_length :
+  forall (St : Type) (enc_tok : St -> token -> list N * St) (Sess : Type)
+         (cenc : Sess -> list Z -> list Z * Sess) sch (w : wstate St Sess) f,
+  bX St enc_tok Sess cenc sch w f
+  = fst (enc_tok (wst w) (TLen (Z.of_nat (flen f))))
+    ++ bytes_of St enc_tok (snd (enc_tok (wst w) (TLen (Z.of_nat (flen f))))) (cols_toks Sess cenc (wsess w) sch f).
+Proof. reflexivity. Qed.
+
+(* where nothing but the checksum protects the length - every column uses the bulk custom codec,
+   whose Decode copies whatever slice it received - one flipped bit of the length token that
+   still reads as a length n' is detected: the batches before k, then a checksum error for ever *)
+Theorem C07_length_flip_detected :
+  forall (St : Type) (enc_tok : St -> token -> list N * St) (dec_tok : St -> list N -> dres St)
+         (Sess : Type) (cenc cdec : Sess -> list Z -> list Z * Sess) (cf : cfg),
+  (forall s t rest, dec_tok s (fst (enc_tok s t) ++ rest)
+                    = DOk t (length (fst (enc_tok s t))) (snd (enc_tok s t))) ->
+  (forall s v, cdec s (fst (cenc s v)) = (v, snd (cenc s v))) ->
+  forall sch st0 s0 pre f n' Q dests j,
+  let wk := fold_left (enc_write St enc_tok Sess cenc sch) pre (w_init St Sess st0 s0) in
+  let L := fst (enc_tok (wst wk) (TLen (Z.of_nat (flen f)))) in
+  let st1 := snd (enc_tok (wst wk) (TLen (Z.of_nat (flen f)))) in
+  let C := bytes_of St enc_tok st1 (cols_toks Sess cenc (wsess wk) sch f) in
+  Forall (fun k => k = KCodecBulk) sch ->
+  Forall (wf_frame sch) pre -> wf_frame sch f -> Forall (wf_frame sch) dests ->
+  snd (enc_tok (wst wk) (TLen (Z.of_nat n'))) = st1 ->
+  (j < 8 * length L)%nat -> fst (enc_tok (wst wk) (TLen (Z.of_nat n'))) = flip_bit L j ->
+  reads St dec_tok Sess cdec cf sch
+        (r_init St Sess (wout wk ++ flip_bit L j ++ C ++ bY St enc_tok Sess cenc sch wk f ++ Q) st0 s0) dests
+  = spec_reads EIntegrity pre [] (map flen dests).
+Proof. exact length_flip_bulk_reads. Qed.
+Print Assumptions C07_length_flip_detected.
+
 (* ---------------------------------------------------------------- truncation *)
 (* cut strictly inside a token of batch k (after its length token): the batches before k, then
    io.ErrUnexpectedEOF for ever; never end-of-stream *)
